@@ -8,7 +8,7 @@ use crate::env::Env;
 use crate::eval::load_toplevel_items;
 use crate::garden_type::Type;
 use crate::parser::ast::{
-    Block, Expression, FunInfo, IdGenerator, LetDestination, Symbol, SyntaxId, TypeHint,
+    Block, Expression, FunInfo, IdGenerator, LetDestination, Symbol, SyntaxId, TypeHint, TypeName,
 };
 use crate::parser::parse_toplevel_items;
 use crate::parser::vfs::Vfs;
@@ -36,6 +36,7 @@ pub(crate) fn add_type_annotation(
         offset,
         end_offset,
         id_to_ty: &summary.id_to_ty,
+        type_params_in_scope: vec![],
         candidates: vec![],
     };
     for item in &items {
@@ -80,6 +81,9 @@ struct AnnotationFinder<'a> {
     offset: usize,
     end_offset: usize,
     id_to_ty: &'a FxHashMap<SyntaxId, Type>,
+    /// The type parameters of the functions enclosing the position
+    /// we're currently visiting, e.g. `T` in `fun foo<T>() {}`.
+    type_params_in_scope: Vec<TypeName>,
     candidates: Vec<Candidate>,
 }
 
@@ -97,7 +101,7 @@ impl AnnotationFinder<'_> {
         let Some(ty) = self.id_to_ty.get(&sym.id) else {
             return;
         };
-        let Some(ty_src) = annotation_src(ty) else {
+        let Some(ty_src) = annotation_src(ty, &self.type_params_in_scope) else {
             return;
         };
 
@@ -131,7 +135,7 @@ impl AnnotationFinder<'_> {
         let Some(ty) = self.body_return_ty(&fun_info.body) else {
             return;
         };
-        let Some(ty_src) = annotation_src(&ty) else {
+        let Some(ty_src) = annotation_src(&ty, &self.type_params_in_scope) else {
             return;
         };
 
@@ -155,6 +159,11 @@ impl AnnotationFinder<'_> {
 
 impl Visitor for AnnotationFinder<'_> {
     fn visit_fun_info(&mut self, fun_info: &FunInfo) {
+        let num_type_params_outside = self.type_params_in_scope.len();
+        for type_param in &fun_info.type_params {
+            self.type_params_in_scope.push(type_param.name.clone());
+        }
+
         self.consider_return_type(fun_info);
 
         for param in &fun_info.params.params {
@@ -164,6 +173,8 @@ impl Visitor for AnnotationFinder<'_> {
         }
 
         self.visit_fun_info_default(fun_info);
+
+        self.type_params_in_scope.truncate(num_type_params_outside);
     }
 
     fn visit_expr_let(
@@ -187,18 +198,17 @@ impl Visitor for AnnotationFinder<'_> {
 /// Render `ty` as a type annotation, or `None` if there's no useful
 /// annotation to add (an unknown `Any` type, or an unrecoverable type
 /// error).
-fn annotation_src(ty: &Type) -> Option<String> {
+///
+/// This also applies to the parts of a type: we can't write
+/// `List<Any>`, and we can't write `Fun<(T), Option<T>>` unless `T`
+/// is a type parameter of an enclosing function.
+fn annotation_src(ty: &Type, type_params_in_scope: &[TypeName]) -> Option<String> {
     match ty {
         Type::Error {
             inferred_type: Some(inferred_type),
             ..
-        } => annotation_src(inferred_type),
-        Type::Error {
-            inferred_type: None,
-            ..
-        } => None,
-        Type::Any => None,
-        _ if ty.is_no_value() => None,
+        } => annotation_src(inferred_type, type_params_in_scope),
+        _ if !ty.is_writable_hint(type_params_in_scope) => None,
         _ => Some(ty.to_string()),
     }
 }
